@@ -482,6 +482,7 @@ func checkC14(c *core.Ctx) error {
 	checkWrappers(c, p, d)
 	checkIid(c, p, d)
 	checkCategorical(c, p, d)
+	checkTraceOfProduct(c)
 	return nil
 }
 
@@ -514,16 +515,26 @@ func checkIid(c *core.Ctx, ps *packages.Package, d *declIndex) {
 		c.Unknown("C14.R6", cons, "inner family interpreted", nctor.Pos(), "constructor of the inner family could not be interpreted")
 		return
 	}
-	n := int64(2)
+	nfix := int64(2)
 	if c.Tier == "thorough" {
-		n = 3
+		nfix = 3
+	}
+	nval := 0
+	// fixed dimension n, and the variable-length form n = -1 evaluated on a vector of two elements
+	for _, variant := range []struct {
+		n, len int64
+	}{{nfix, nfix}, {-1, 2}} {
+	n := variant.n
+	tag := ""
+	if n < 0 {
+		tag = " (variable length, n = -1)"
 	}
 	cfg := vn.Config{Pkg: pv, TypeName: "Real64", Spec: distSpec, InlineOps: inlineOps, Decl: d.find, ParamNames: true, MaxDepth: 6, UnrollConst: true,
 		ParamValues: map[string]vn.Value{"distribution": vn.DeepCopy(inner[0].obj, nil), "n": sym.Int(n)}}
 	paths, u := vn.Run(cfg, ctor)
 	if u != nil {
-		c.Unknown("C14.R6", cons, "constructor interpreted", u.Pos, "left the interpreter's idiom set: "+u.Msg)
-		return
+		c.Unknown("C14.R6", cons, "constructor interpreted"+tag, u.Pos, "left the interpreter's idiom set: "+u.Msg)
+		continue
 	}
 	var obj *vn.StructVal
 	for _, pa := range paths {
@@ -534,23 +545,30 @@ func checkIid(c *core.Ctx, ps *packages.Package, d *declIndex) {
 		}
 	}
 	if obj == nil {
-		c.Unknown("C14.R6", cons, "constructor has a success path", ctor.Pos(), "no success path")
-		return
+		c.Unknown("C14.R6", cons, "constructor has a success path"+tag, ctor.Pos(), "no success path")
+		continue
 	}
 	cfg2 := vn.Config{Pkg: pv, TypeName: "Real64", Spec: distSpec, InlineOps: inlineOps, Decl: d.find, ParamNames: true, MaxDepth: 6, UnrollConst: true,
 		RecvStruct: obj, RecvFresh: true}
+	// the argument is a vector of variant.len independent symbols
+	var xs []*sym.Term
+	for i := int64(0); i < variant.len; i++ {
+		xs = append(xs, symf("x_%d", i))
+	}
+	cfg2.ParamList = []vn.Value{nil, vn.NewLocalVec(xs...)}
+	cfg2.ParamFresh = true
+	elem := func(i int64) *sym.Term { return symf("x_%d", i) }
 	lpaths, u := vn.Run(cfg2, lp)
 	if u != nil {
-		c.Unknown("C14.R6", cons, "LogPdf interpreted", u.Pos, "left the interpreter's idiom set: "+u.Msg)
-		return
+		c.Unknown("C14.R6", cons, "LogPdf interpreted"+tag, u.Pos, "left the interpreter's idiom set: "+u.Msg)
+		continue
 	}
 	P := map[string]*sym.Term{"mu": sym.Sym("mu"), "sigma": sym.Sym("sigma")}
 	f := normal.variants[0].formula
 	want := sym.Zero()
-	for i := int64(0); i < n; i++ {
-		want = sym.Add(want, f(P, sym.Fn("elem", sym.Sym("x"), sym.Int(i))))
+	for i := int64(0); i < variant.len; i++ {
+		want = sym.Add(want, f(P, elem(i)))
 	}
-	nval := 0
 	for _, pa := range lpaths {
 		if pa.Panic {
 			continue
@@ -569,8 +587,9 @@ func checkIid(c *core.Ctx, ps *packages.Package, d *declIndex) {
 			continue
 		}
 		nval++
-		c.Check(sym.Equal(res, want), "C14.R6", cons, fmt.Sprintf("LogPdf is the sum of the %d component log-densities [%s]", n, shortConds(pa.CondString())), lp.Pos(),
+		c.Check(sym.Equal(res, want), "C14.R6", cons, fmt.Sprintf("LogPdf is the sum of the %d component log-densities%s [%s]", variant.len, tag, shortConds(pa.CondString())), lp.Pos(),
 			"the product distribution evaluates to "+res.String()+" but the sum of the component log-densities is "+want.String())
+	}
 	}
 	c.Check(nval > 0, "C14.R6", cons, "LogPdf has a value-returning path", lp.Pos(), "no value-returning path")
 }
